@@ -307,14 +307,16 @@ theorem attest_outcome (s : St) (id : Nat) (w : Winner) : Outcome s id w (attest
           · refine .unchanged _ ?_; decide
           · rename_i hpr
             split
-            · exact .rejected p _ rfl (.inr rfl)
-            · rename_i hv
-              split
-              · refine .unchanged _ ?_; decide
-              · rename_i ce hs
-                refine .accepted m p ce hm rfl ?_ ?_ hv hs
-                · simpa using hr1
-                · simpa using hpr
+            · refine .unchanged _ ?_; decide
+            · split
+              · exact .rejected p _ rfl (.inr rfl)
+              · rename_i hv
+                split
+                · refine .unchanged _ ?_; decide
+                · rename_i ce hs
+                  refine .accepted m p ce hm rfl ?_ ?_ hv hs
+                  · simpa using hr1
+                  · simpa using hpr
 
 theorem setActive_none_or (c : Chain) (cid : Nat) :
     setActive c cid = none ∨ ∃ c', setActive c cid = some c' := by
@@ -1888,8 +1890,9 @@ theorem effects_only_on_accept (s : St) (id : Nat) (w : Winner) (h : (attest s i
   | accepted m p ce hm hw hrc hproc hv hs => exact absurd rfl h
 
 /-- **rejections_by_cause.** The individual causes named by the property: no winner, an error
-proof, a missing or failed receipt, a transaction that does not verify, and a transaction that
-was used before — none of them is accepted. -/
+proof, a missing or failed receipt, a transaction that does not verify, a transaction that
+was used before, and a message whose expected call data cannot be built at all (nothing to compare
+the transaction with) — none of them is accepted. -/
 theorem rejections_by_cause (s : St) (id : Nat) (m : QMsg) (hm : findMsg s.queue id = some m) :
     (attest s id .none).2 = .noop ∧
     (attest s id .errorProof).2 = .errorHandled ∧
@@ -1897,11 +1900,14 @@ theorem rejections_by_cause (s : St) (id : Nat) (m : QMsg) (hm : findMsg s.queue
     (∀ p, p.receipt = none → (attest s id (.tx p)).2 = .receiptErr) ∧
     (∀ p st, p.receipt = some st → st ≠ 1 → (attest s id (.tx p)).2 = .txFailed) ∧
     (∀ p, p.receipt = some 1 → p.hash ∈ s.processed → (attest s id (.tx p)).2 = .alreadyProcessed) ∧
-    (∀ p, p.receipt = some 1 → p.hash ∉ s.processed → verifyAgainstTx m p.data = .notVerified →
-        (attest s id (.tx p)).2 = .notVerified) ∧
-    (∀ p, p.receipt = some 1 → p.hash ∉ s.processed → verifyAgainstTx m p.data = .ok →
+    (∀ p, p.receipt = some 1 → p.hash ∉ s.processed → buildable s.chain.abi m = false →
+        (attest s id (.tx p)).2 = .encodeErr) ∧
+    (∀ p, p.receipt = some 1 → p.hash ∉ s.processed → buildable s.chain.abi m = true →
+        verifyAgainstTx m p.data = .notVerified → (attest s id (.tx p)).2 = .notVerified) ∧
+    (∀ p, p.receipt = some 1 → p.hash ∉ s.processed → buildable s.chain.abi m = true →
+        verifyAgainstTx m p.data = .ok →
         applySuccess s.chain m p = none → (attest s id (.tx p)).2 = .postErr) := by
-  refine ⟨?_, ?_, ?_, ?_, ?_, ?_, ?_, ?_⟩
+  refine ⟨?_, ?_, ?_, ?_, ?_, ?_, ?_, ?_, ?_⟩
   · simp [attest, hm]
   · simp [attest, hm]
   · simp [attest, hm]
@@ -1911,10 +1917,12 @@ theorem rejections_by_cause (s : St) (id : Nat) (m : QMsg) (hm : findMsg s.queue
     simp [attest, hm, hp, hst]
   · intro p hp hh
     simp [attest, hm, hp, hh]
-  · intro p hp hh hv
-    simp [attest, hm, hp, hh, hv]
-  · intro p hp hh hv hs
-    simp [attest, hm, hp, hh, hv, hs]
+  · intro p hp hh hb
+    simp [attest, hm, hp, hh, hb]
+  · intro p hp hh hb hv
+    simp [attest, hm, hp, hh, hb, hv]
+  · intro p hp hh hb hv hs
+    simp [attest, hm, hp, hh, hb, hv, hs]
 
 /-- **unknown_message_rejected.** … and evidence for an id under which nothing is stored. -/
 theorem unknown_message_rejected (s : St) (id : Nat) (w : Winner) (h : findMsg s.queue id = none) :
@@ -3381,6 +3389,153 @@ theorem accepted_fee_paying_calldata_names_its_message (ops : List Op) (hops : O
   exact hne (by rw [← this]; exact hid0)
 
 
+/-! ### 10. the expected call data cannot be built: there is nothing the transaction equals
+
+`VerifyAgainstTX` BUILDS the bridge-contract encoding of the message with the ABI of the compass
+`GetLastCompassContract` returns (the compass saved last, possibly newer than the one the message was
+relayed on) — for a compass upload with the message's own ABI and constructor input — and only then
+compares.  When that encoding cannot be built (`buildable = false`: the ABI does not parse, `Pack`
+does not find the method or refuses the argument list, the constructor input does not unpack) the
+clause "accepted only if its call data EQUALS the encoding" has nothing to be equal to: no
+transaction whatsoever may be accepted, and none is — the router returns an error that is neither
+success nor one of the two committed rejections, so the message stays and the transaction is not
+spent (it can be attested later, once the encoding exists again). -/
+
+/-- **buildable_iff.** What "the expected call data can be built" means, spelled out. -/
+theorem buildable_iff (c : CompassAbi) (m : QMsg) :
+    buildable c m = true ↔
+      (isUp m.action = true ∧ m.upOk = true) ∨
+      (isUp m.action = false ∧ c.parses = true ∧ (m.sigs = [] ∨ c.packs m.action = true)) := by
+  unfold buildable
+  cases hu : isUp m.action <;> simp [List.isEmpty_iff]
+
+/-- **unbuildable_encoding_never_accepted.** C07, first clause, for the inputs the clause is silent
+about: while the expected call data of the stored message cannot be built, NO evidence winner — no
+transaction, whatever its call data and receipt — is accepted for it. -/
+theorem unbuildable_encoding_never_accepted (s : St) (id : Nat) (m : QMsg)
+    (hm : findMsg s.queue id = some m) (hb : buildable s.chain.abi m = false) (w : Winner) :
+    (attest s id w).2 ≠ .ok := by
+  intro hok
+  cases w with
+  | none => simp [attest, hm] at hok
+  | errorProof => simp [attest, hm] at hok
+  | other => simp [attest, hm] at hok
+  | tx p =>
+    simp only [attest, hm, hb, Bool.not_false, ↓reduceIte] at hok
+    split at hok
+    · cases hok
+    · split at hok
+      · cases hok
+      · split at hok <;> cases hok
+
+/-- **unbuildable_encoding_no_effects.** … and therefore effect log, keeper state (snapshot listings,
+bridge contract records, active contract, user deployments) and acceptance log stay exactly as they
+were, for every winner. -/
+theorem unbuildable_encoding_no_effects (s : St) (id : Nat) (m : QMsg)
+    (hm : findMsg s.queue id = some m) (hb : buildable s.chain.abi m = false) (w : Winner) :
+    (attest s id w).2 ≠ .ok ∧ (attest s id w).1.effects = s.effects ∧
+    (attest s id w).1.chain = s.chain ∧ (attest s id w).1.accepted = s.accepted :=
+  ⟨unbuildable_encoding_never_accepted s id m hm hb w,
+   effects_only_on_accept s id w (unbuildable_encoding_never_accepted s id m hm hb w)⟩
+
+/-- **unbuildable_encoding_commits_nothing.** The exact outcome for a transaction that passed the
+receipt gate and the single-use check: the non-sentinel error `encodeErr`, and the WHOLE state is
+unchanged — the message is still queued, the transaction is not marked as used — for ALL call data
+(the call data is never looked at). -/
+theorem unbuildable_encoding_commits_nothing (s : St) (id : Nat) (m : QMsg)
+    (hm : findMsg s.queue id = some m) (hb : buildable s.chain.abi m = false) (p : TxProof)
+    (hr : p.receipt = some 1) (hh : p.hash ∉ s.processed) :
+    attest s id (.tx p) = (s, .encodeErr) := by
+  simp [attest, hm, hr, hh, hb]
+
+/-- **accept_implies_buildable_encoding.** C07, first clause, complete: an accepting attestation
+compared the transaction with an encoding that EXISTS (the latest compass ABI parses and declares the
+method / the upload's constructor input unpacks) and the call data equals it. -/
+theorem accept_implies_buildable_encoding (s : St) (id : Nat) (w : Winner)
+    (h : (attest s id w).2 = .ok) :
+    ∃ m p, findMsg s.queue id = some m ∧ m.id = id ∧ w = .tx p ∧
+      buildable s.chain.abi m = true ∧ ExactFor m p.data := by
+  obtain ⟨m, p, hm, hid, hw, hex⟩ := accept_implies_exact_calldata s id w h
+  refine ⟨m, p, hm, hid, hw, ?_, hex⟩
+  cases hb : buildable s.chain.abi m with
+  | true => rfl
+  | false => exact absurd h (unbuildable_encoding_never_accepted s id m hm hb w)
+
+/-- **buildable_exact_success_tx_accepted.** The gate is not what rejects in normal operation: with a
+buildable encoding, exact call data, a success receipt, an unused transaction and an action attester
+that succeeds, the attestation is accepted. -/
+theorem buildable_exact_success_tx_accepted (s : St) (id : Nat) (m : QMsg)
+    (hm : findMsg s.queue id = some m) (hb : buildable s.chain.abi m = true) (p : TxProof)
+    (hr : p.receipt = some 1) (hh : p.hash ∉ s.processed) (hex : ExactFor m p.data)
+    (ce : Chain × List Effect) (hs : applySuccess s.chain m p = some ce) :
+    (attest s id (.tx p)).2 = .ok := by
+  simp [attest, hm, hr, hh, hb, exact_verify_ok m p.data hex, hs]
+
+theorem applySuccess_keeps_abi (c : Chain) (m : QMsg) (p : TxProof) (ce : Chain × List Effect)
+    (h : applySuccess c m p = some ce) : ce.1.abi = c.abi := by
+  unfold applySuccess at h
+  split at h
+  · split at h <;> (injection h with h; subst h; rfl)
+  · injection h with h; subst h; rfl
+  · split at h
+    · cases h
+    · split at h
+      · cases h
+      · injection h with h; subst h; rfl
+  · split at h
+    · cases h
+    · rename_i c' hc
+      injection h with h; subst h
+      unfold setActive at hc
+      split at hc
+      · injection hc with hc; subst hc; rfl
+      · cases hc
+  · split at h
+    · cases h
+    · split at h
+      · split at h
+        · cases h
+        · split at h
+          · cases h
+          · rename_i c2 hc
+            injection h with h; subst h
+            unfold setActive at hc
+            split at hc
+            · injection hc with hc; subst hc; rfl
+            · cases hc
+      · split at h
+        · cases h
+        · injection h with h; subst h; rfl
+
+/-- **attest_keeps_compass_abi.** The ABI the encodings are built with is not a success effect: no
+attestation step changes it (only the environment op does — a governance proposal or genesis saving a
+new compass). -/
+theorem attest_keeps_compass_abi (s : St) (id : Nat) (w : Winner) :
+    (attest s id w).1.chain.abi = s.chain.abi := by
+  have ho := attest_outcome s id w
+  generalize attest s id w = r at ho
+  cases ho with
+  | unchanged r hr => rfl
+  | errorHandled => rfl
+  | rejected p r hw hr => rfl
+  | accepted m p ce hm hw hrc hproc hv hs => exact applySuccess_keeps_abi _ _ _ _ hs
+
+/-- **history_unbuildable_encoding_no_effects.** With the quantifier of the property ("for all
+histories"): after ANY history — e.g. a newer compass whose ABI lacks the method, or declares it with
+another parameter list, was saved while the message was in flight (`setChain`), or an upload message
+with an unusable ABI / constructor input was stored — an attestation attempt (with a given winner or
+voted from any evidence) for a message whose expected call data cannot be built changes neither the
+effect log, nor the keeper state, nor the acceptance log, whatever transaction is presented. -/
+theorem history_unbuildable_encoding_no_effects (ops : List Op) (id : Nat) (m : QMsg)
+    (hm : findMsg (run {} ops).queue id = some m)
+    (hb : buildable (run {} ops).chain.abi m = false) (op : Op) (w : Winner)
+    (ha : op.attempt = some (id, w)) :
+    (step (run {} ops) op).effects = (run {} ops).effects ∧
+    (step (run {} ops) op).chain = (run {} ops).chain ∧
+    (step (run {} ops) op).accepted = (run {} ops).accepted := by
+  rw [attempt_step _ op id w ha]
+  exact (unbuildable_encoding_no_effects _ id m hm hb w).2
+
 /-! ## non-vacuity — every example goes through `run` from the initial state `{}` -/
 
 def exVs : GoValset := { validators := [[48, 120, 97, 97]], powers := [4294967296], valsetId := 3 }
@@ -3645,6 +3800,51 @@ example : (attest (run {} exUscOps) 1 (.tx exUscStale)).2 = .notVerified := by d
 set_option maxRecDepth 100000 in
 example : (attestEv exS 1 exSnap [(1, .tx exP), (1, .tx exP), (1, .tx exP)]).2 = .ok ∧
     (attestEv exS 1 exSnap [(1, .tx exP)]).2 = .noop := by decide
+
+
+-- the expected call data cannot be built.  A newer compass was saved while update-valset 1 was in
+-- flight (environment op; snapshot 7 exists) and its ABI does not declare `update_valset` with the
+-- parameter list the arguments fit: the transaction that WOULD verify and a transaction with junk call
+-- data get the same answer, the non-committed error, and nothing at all changes; once the latest
+-- compass declares the method again the genuine transaction is accepted
+def exAbiOps (a : CompassAbi) : List Op :=
+  [.enqueue (.uv exUvF 7) exVs exSigs, .setChain { snapshots := [7], currentSnapshot := 7, abi := a }]
+set_option maxRecDepth 100000 in
+example : buildable (run {} (exAbiOps { uv := false })).chain.abi
+      { id := 1, action := .uv exUvF 7, valset := exVs, sigs := exSigs } = false ∧
+    (attest (run {} (exAbiOps { uv := false })) 1 (.tx (exUvP 7))).2 = .encodeErr ∧
+    (attest (run {} (exAbiOps { uv := false })) 1 (.tx { exUvP 7 with data := [0xde, 0xad, 0xbe, 0xef] })).2 = .encodeErr ∧
+    (run {} (exAbiOps { uv := false } ++ [.attest 1 (.tx (exUvP 7))])).chain.liveOn = [] ∧
+    (run {} (exAbiOps { uv := false } ++ [.attest 1 (.tx (exUvP 7))])).processed = [] ∧
+    (run {} (exAbiOps { uv := false } ++ [.attest 1 (.tx (exUvP 7))])).queue.map (·.id) = [1] ∧
+    (run {} (exAbiOps { uv := false } ++ [.attest 1 (.tx (exUvP 7)),
+        .setChain { snapshots := [7], currentSnapshot := 7 }, .attest 1 (.tx (exUvP 7))])).chain.liveOn = [7] := by
+  decide
+-- a missing method of ANOTHER action does not matter; an ABI that does not parse does
+set_option maxRecDepth 100000 in
+example : (attest (run {} (exAbiOps { slc := false, usc := false, ch := false })) 1 (.tx (exUvP 7))).2 = .ok ∧
+    (attest (run {} (exAbiOps { parses := false })) 1 (.tx (exUvP 7))).2 = .encodeErr := by decide
+-- `Pack` is only reached inside the loop over the signature prefixes: without signatures a missing
+-- method goes unnoticed and the transaction is refused with the COMMITTED `ErrEthTxNotVerified`; an
+-- ABI that does not parse is noticed before the loop
+set_option maxRecDepth 100000 in
+example : (attest (run {} [.enqueue (.uv exUvF 7) exVs [], .setChain { abi := { uv := false } }]) 1 (.tx (exUvP 7))).2
+      = .notVerified ∧
+    (attest (run {} [.enqueue (.uv exUvF 7) exVs [], .setChain { abi := { parses := false } }]) 1 (.tx (exUvP 7))).2
+      = .encodeErr := by decide
+-- a compass upload whose own ABI / constructor input is unusable (the stored message rewritten under
+-- its id): even the bytes bytecode ++ constructor input are not accepted; the failed-receipt gate
+-- comes first
+set_option maxRecDepth 100000 in
+example : (attest (run {} (exUpOps [0xaa, 0xbb] ++
+      [.update { id := 1, action := .up [0x60, 0x02, 0x11] [0xaa, 0xbb] 2, valset := exVs, sigs := [], upOk := false }]))
+      1 (.tx { exP with data := [0x60, 0x02, 0x11, 0xaa, 0xbb] })).2 = .encodeErr ∧
+    (run {} (exUpOps [0xaa, 0xbb] ++
+      [.update { id := 1, action := .up [0x60, 0x02, 0x11] [0xaa, 0xbb] 2, valset := exVs, sigs := [], upOk := false },
+       .attest 1 (.tx { exP with data := [0x60, 0x02, 0x11, 0xaa, 0xbb] })])).chain.deployments = [(2, .inFlight)] ∧
+    (attest (run {} (exUpOps [0xaa, 0xbb] ++
+      [.update { id := 1, action := .up [0x60, 0x02, 0x11] [0xaa, 0xbb] 2, valset := exVs, sigs := [], upOk := false }]))
+      1 (.tx { exP with receipt := some 0 })).2 = .txFailed := by decide
 
 
 end Paloma.Attest
